@@ -61,6 +61,8 @@ def drive(rec):
     n, u = rec["n"], rec["u"]
     t = {"n": n, "gram": rec["gram"], "asym": rec["asym"], "ops": [], "k": rec["k"], "K": rec["K"], "queries": [],
          "switched": bool(rec.get("via_switch")), "pre": rec.get("pre", {}), "choice": rec["choice"],
+         "mols": rec.get("mols", []), "bonds": rec.get("bonds", []), "u2m": int(rec.get("u2m", 0)),
+         "thr": xtal.bond_table(rec) if rec.get("mols") else [],
          "meta": {"recipe": rec, "source": rec.get("src", "random"), "nontrivial": True,
                   "impl_call": "Crystal(%d %r) radius=%.3f: %s" % (rec["number"], rec["choice"], rec["radius"],
                                                                   ",".join(q["kind"] for q in rec["queries"]))}}
@@ -108,6 +110,49 @@ def drive(rec):
             except Exception as e:
                 t["queries"].append({"kind": kind, "centre": [[0, 0, 0]], "excl": True, "exc": type(e).__name__,
                                      "off": False, "rows": []})
+        elif kind == "molecular_shell":
+            out = {"kind": kind, "centre": [[0, 0, 0]], "mols": [], "exc": "", "off": False}
+            try:
+                centre_mol = cr.symmetry_unique_molecules()[q["mol_idx"]]
+                centre, o1 = rows_from_positions(cr, n, centre_mol.atomic_numbers, centre_mol.positions)
+                off = o1
+                for m in cr.molecular_shell(mol_idx=q["mol_idx"], radius=radius):
+                    rows, o2 = rows_from_positions(cr, n, m.atomic_numbers, m.positions)
+                    off |= o2
+                    out["mols"].append([{"p": r["p"], "z": r["z"]} for r in rows])
+                out.update(centre=[c["p"] for c in centre], off=bool(off))
+            except Exception as e:
+                out["exc"] = type(e).__name__
+            t["queries"].append(out)
+        elif kind == "symmetry_unique_dimers":
+            out = {"kind": kind, "cents": [], "pairs": [], "reps": [], "exc": "", "off": False}
+            try:
+                off = False
+                uniq = cr.symmetry_unique_molecules()
+                for m in uniq:
+                    rows, o = rows_from_positions(cr, n, m.atomic_numbers, m.positions)
+                    off |= o
+                    out["cents"].append([r["p"] for r in rows])
+                unique_dimers, mol_dimers = cr.symmetry_unique_dimers(radius=radius)
+
+                def d2_of(sep):
+                    v = float(sep) ** 2 * n * n / (u * u)
+                    k = int(round(v))
+                    return k, abs(v - k) > 1e-6 * max(1.0, abs(v))
+                for a, lst in enumerate(mol_dimers):
+                    for cls, d in lst:
+                        rows, o = rows_from_positions(cr, n, d.b.atomic_numbers, d.b.positions)
+                        k, o2 = d2_of(d.separation)
+                        off |= o or o2 or (d.a is not uniq[a] and not np.allclose(d.a.positions, uniq[a].positions))
+                        out["pairs"].append({"a": a + 1, "cls": int(cls) + 1, "d2": k, "atoms": [{"p": r["p"], "z": r["z"]} for r in rows]})
+                for d in unique_dimers:
+                    rows, o = rows_from_positions(cr, n, d.b.atomic_numbers, d.b.positions)
+                    off |= o
+                    out["reps"].append({"a": int(d.a_idx) + 1, "atoms": [{"p": r["p"], "z": r["z"]} for r in rows]})
+                out["off"] = bool(off)
+            except Exception as e:
+                out["exc"] = type(e).__name__
+            t["queries"].append(out)
         elif kind == "atom_group_surroundings":
             try:
                 (cel, cpos), (els, pos) = cr.atom_group_surroundings(q["atoms"], radius=radius)
@@ -179,7 +224,9 @@ def gen(args):
             return none
         rec["radius"], rec["k"], rec["K"] = ch
         rec["queries"] = [{"kind": "molecule_environments"}, {"kind": "atom_group_surroundings", "atoms": [0, 1, 2]},
-                          {"kind": "atomic_surroundings"}]
+                          {"kind": "atomic_surroundings"}, {"kind": "molecular_shell", "mol_idx": 0}]
+        if rec["radius"] <= 5.0:
+            rec["queries"].append({"kind": "symmetry_unique_dimers"})
         return rec
     elif mode in ("switched-mol", "switched-atomic"):
         # an object used in hexagonal axes (unit cell, connectivity, molecules, Cartesian operations all computed) and then
@@ -256,6 +303,9 @@ def gen(args):
     if mode == "mol":
         qs.append({"kind": "molecule_environments"})
         qs.append({"kind": "atom_group_surroundings", "atoms": [0, 1] if rng.random() < 0.7 else [0]})
+        if rec["radius"] <= 6.5:
+            qs.append({"kind": "molecular_shell", "mol_idx": rng.randrange(len(rec["mols"]))})
+            qs.append({"kind": "symmetry_unique_dimers"})
     rec["queries"] = qs
     return rec
 
